@@ -11,9 +11,9 @@ T=$(mktemp -d /var/tmp/verif-det-XXXX)
 export VERIF_OUTDIR=$T/out
 bad=0
 for p in $PROPS; do
-  ./bin/check -p $p -budget 600 -workers 4 -maxruns $((N/4)) -hashes $T/a.txt -noshrink >/dev/null 2>&1
-  ./bin/check -p $p -budget 600 -workers 2 -maxruns $((N/2)) -hashes $T/b.txt -noshrink >/dev/null 2>&1
-  GOMAXPROCS=1 ./bin/check -p $p -budget 600 -workers 12 -maxruns $((N/12)) -hashes $T/c.txt -noshrink >/dev/null 2>&1
+  ./bin/check -repo ${DET_REPO:-/repo} -p $p -budget 600 -workers 4 -maxruns $((N/4)) -hashes $T/a.txt -noshrink >/dev/null 2>&1
+  ./bin/check -repo ${DET_REPO:-/repo} -p $p -budget 600 -workers 2 -maxruns $((N/2)) -hashes $T/b.txt -noshrink >/dev/null 2>&1
+  GOMAXPROCS=1 ./bin/check -repo ${DET_REPO:-/repo} -p $p -budget 600 -workers 12 -maxruns $((N/12)) -hashes $T/c.txt -noshrink >/dev/null 2>&1
   # negative indices are sweep cases (layout independent but numbered per worker): compare random-search runs only
   grep -v "^-" $T/a.txt | sort > $T/a1; grep -v "^-" $T/b.txt | sort > $T/b1; grep -v "^-" $T/c.txt | sort > $T/c1
   d1=$(diff $T/a1 $T/b1 | grep -c "^[<>]")
